@@ -187,6 +187,41 @@ func (s *linkSource) Next() ([]byte, error) {
 	return append([]byte(nil), chunk...), nil
 }
 
+// neighbourSource lets a second connection decode one frame every time the first one blocks.
+type neighbourSource struct {
+	inner simnet.Source
+	r     *core.Run
+	kind  int
+	site  string
+	n     int
+}
+
+func (s *neighbourSource) Next() ([]byte, error) {
+	c := s.r.C
+	if s.n < 6 && c.Prob(1, 2) {
+		s.n++
+		l := 4 + c.Intn(60)
+		f := c.Blob(l, "any")
+		f[0], f[1], f[2], f[3] = 0, 0, 0, byte(l)
+		var cd codec.Codec = codec.NewCMPPCodec()
+		if s.kind == 1 {
+			cd = codec.NewSMPPCodec()
+		}
+		nb := simnet.NewSimConn(simnet.Compact, 64, nil)
+		nb.Arrive(f)
+		nb.Fail(io.EOF)
+		var got []byte
+		var err error
+		if p := s.r.Call(s.site, func() { got, err = cd.DecodeBlocked(nb) }); p != nil {
+			s.r.Fail("C04", "panic", s.site, p.Kind, "DecodeBlocked on a neighbouring connection panicked: %s", p.Value)
+		} else if err != nil || !bytes.Equal(got, f) {
+			s.r.Fail("C04", "frame-mismatch", s.site, "neighbour", "a neighbouring connection's frame of %d octets came back as %s (%v)", l, hexN(got, 16), err)
+		}
+		s.r.Fault("neighbour_connection_decodes")
+	}
+	return s.inner.Next()
+}
+
 func runFraming(r *core.Run) {
 	c := r.C
 	exhaustive := r.Cfg.Mode == "single-fault"
@@ -403,6 +438,15 @@ func runFraming(r *core.Run) {
 		}
 	}
 
+	if !exhaustive && entry == 0 && c.Prob(1, 4) {
+		conn.SegPeek = func(avail, n int) int {
+			if c.Prob(1, 3) {
+				return 1 + c.Intn(n) // n means: contiguous after all
+			}
+			return n
+		}
+	}
+
 	consumed := 0 // octets of the stream the extractor has consumed according to the sender's record
 	next := 0     // index of the next expected frame
 	checkFrame := func(got []byte) bool {
@@ -428,7 +472,7 @@ func runFraming(r *core.Run) {
 				conn.Fail(err)
 			}
 			for calls := 0; ; calls++ {
-				if calls > len(plan.frames)+2 {
+				if calls > 3*len(plan.frames)+6 {
 					r.Fail("C04", "no-progress", site, "spin", "Decode kept returning without reporting incomplete (%d calls after one arrival)", calls)
 					return
 				}
@@ -436,6 +480,7 @@ func runFraming(r *core.Run) {
 				buffered := arrived - consumed
 				var frame []byte
 				var derr error
+				conn.PeekShort = false
 				if p := r.Call(site, func() { frame, derr = cd.Decode(conn) }); p != nil {
 					r.Fail("C04", "panic", site, p.Kind, "Decode panicked: %s at %s", p.Value, p.Frame)
 					return
@@ -444,6 +489,12 @@ func runFraming(r *core.Run) {
 				r.Event("Decode -> len=%d err=%s size %d->%d", len(frame), errName(derr), before, after)
 				// what does the sender's record say?
 				atBad := plan.badAt >= 0 && next == len(plan.frames)
+				if conn.PeekShort && errors.Is(derr, codec.ErrPacketNotComplete) && before == after && buffered >= 4 {
+					// the reader could not hand the octets out in one piece this time: "not complete yet" is a correct
+					// answer as long as nothing was consumed; the next call (no new arrival) must do better
+					r.Fault("short_peek")
+					continue
+				}
 				switch {
 				case atBad && buffered >= 4:
 					if derr == nil || errors.Is(derr, codec.ErrPacketNotComplete) {
@@ -501,7 +552,13 @@ func runFraming(r *core.Run) {
 	}
 
 	// blocking consumer
-	conn = simnet.NewSimConn(disc, 64, src)
+	var blockSrc simnet.Source = src
+	if !exhaustive && c.Prob(1, 5) {
+		// while this connection waits for octets another connection of the same process reads a frame of its own
+		// through the same kind of extractor: nothing the extractors keep between calls may leak from one to the other
+		blockSrc = &neighbourSource{inner: src, r: r, kind: codecIdx, site: site}
+	}
+	conn = simnet.NewSimConn(disc, 64, blockSrc)
 	if !exhaustive && c.Prob(1, 3) {
 		conn.ShortRead = func(avail, want int) int {
 			k := 1 + c.Intn(min(avail, want))
